@@ -85,12 +85,12 @@ BOUNDS = {
               'spec2': ['same', 'rate', 'size'], 'containers': ['json', 'gz'], 'depth': 1,
               'kill_offsets': 'classes(json depth 3)',
               'interrupt_points': 'classes(json depth 2; every gzip write boundary) + every non-write event',
-              'plant': ['rate', 'size', 'noise', 'decoder', 'overlap']},
+              'plant': ['rate', 'size', 'noise', 'noise-close', 'decoder', 'overlap']},
     'thorough': {'n_pairs': [[3, 3], [3, 5], [4, 6]], 'save_frequency': [1, 2, 3],
                  'spec2': ['same', 'rate', 'size'], 'containers': ['json', 'gz'], 'depth': 2,
                  'kill_offsets': 'all', 'interrupt_inside': {'json': 'mid of every write', 'gz': 'all'},
                  'depth2_offsets': 'classes(json depth 2)', 'depth2_n3': 'n2+1',
-                 'plant': ['rate', 'size', 'noise', 'decoder', 'overlap']},
+                 'plant': ['rate', 'size', 'noise', 'noise-close', 'decoder', 'overlap']},
 }
 BUDGET_S = {'quick': 900, 'thorough': 7200}
 
@@ -131,6 +131,8 @@ def spec_params(variant):
         'f-rate': ([[2, 2]], [0.15, 0.25], 'MatchingDecoder', DEPOL),
         'f-size': ([[3, 3]], [0.1, 0.2], 'MatchingDecoder', DEPOL),
         'f-noise': ([[2, 2]], [0.1, 0.2], 'MatchingDecoder', (1.0, 0.0, 0.0)),
+        # a noise direction that differs from the base one only beyond the 7th decimal: still another model
+        'f-noise-close': ([[2, 2]], [0.1, 0.2], 'MatchingDecoder', (1 / 3 + 1e-8, 1 / 3 - 1e-8, 1 / 3)),
         'f-decoder': ([[2, 2]], [0.1, 0.2], 'BeliefPropagationOSDDecoder', DEPOL),
         'f-overlap': ([[2, 2]], [0.1, 0.35], 'MatchingDecoder', DEPOL),
     }
